@@ -218,7 +218,24 @@ def index_consistency(P, R):
                     subs |= vars_in(x['index'])
         if shifts:
             n += 1
-            ok = len(shifts) == 1 and (not subs or subs == shifts)
+            # variables that are plain copies of one another (a search folded back from a helper hands its index over
+            # through the return value) count as one index
+            parent = {}
+
+            def find(x):
+                while parent.get(x, x) != x:
+                    x = parent[x]
+                return x
+            for s in f.sites():
+                ev = s.ev
+                tgt = ev.get('var') if ev['k'] == 'decl' else (ev['lhs']['name'] if ev['k'] == 'store' and is_var(ev.get('lhs')) and ev.get('op') == '=' else None)
+                val = ev.get('init') if ev['k'] == 'decl' else ev.get('rhs') if ev['k'] == 'store' else None
+                if tgt and is_var(val):
+                    a, b = find(tgt), find(val['name'])
+                    if a != b:
+                        parent[a] = b
+            classes = {find(v) for v in shifts | subs}
+            ok = len(classes) == 1 or (len(shifts) == 1 and (not subs or subs == shifts))
             R.ob('C07.TAB.1', ok, f, 'mask bit index %s and service table subscript %s are the same variable' % (sorted(shifts), sorted(subs)), key='index:%s' % f.name)
     R.floor('C07.TAB.1', 4)
 
